@@ -222,6 +222,10 @@ def run(ck, F):
 
     # ---------------------------------------------------------------- positions / home / level
     positions_rule(ck, F, S)
+    # a region binds exactly what its scope holds: size() / elements() of the scope are those of its store (a handler's region is filled
+    # by its constructor, the others member by member)
+    import c09 as _c09
+    _c09.scope_size_rule(ck, F, 'C12')
     level_given(ck, F, 'C12')
 
     # ---------------------------------------------------------------- units
